@@ -36,8 +36,8 @@ PLAN = {
     "quick": [("GlyphSetCore.cfg", None, 900), ("GlyphSetSim.cfg", 1200, 900)],
     "thorough": [("GlyphSetCore.cfg", None, 1500), ("GlyphSetSim.cfg", 3000, 1500),
                  ("GlyphSetGlyphs.cfg", None, 1500), ("GlyphSetNames.cfg", None, 1500),
-                 ("GlyphSetCmap.cfg", None, 1500), ("GlyphSetOrders.cfg", None, 1500),
-                 ("GlyphSetComps.cfg", None, 1500)],
+                 ("GlyphSetComps.cfg", None, 1500), ("GlyphSetCmap.cfg", None, 1500),
+                 ("GlyphSetOrders.cfg", None, 1500)],
 }
 # thorough: no new chunk of compiles / batch of samples is started after this many seconds; what was not
 # reached is recorded as incomplete in the evidence (the verdict does not depend on it)
